@@ -3,7 +3,7 @@ import Aergo.Model.Admit
 
 /-! Model driver for C14: `model-c14 < ops > out`.
 
-    tx  k=v …   a governance transaction: admission (`poolAdmit`) and execution (`execute`) outcome
+    tx  k=v …   a transaction of any type: admission (`poolAdmit`) and execution (`execute`) outcome
     val k=v …   any transaction: outcome of `Validate` alone
     up <hex> / low <hex>   the model's `strings.ToUpper` / allowed-character test on a string (rune tables)
     json <hex>  decoding of a payload into CallInfo: `err` or name/number of args/kinds
@@ -113,6 +113,28 @@ def getArgF (kv : KV) : Except String (List ArgF) :=
         | _, _ => .error s!"af={it}"
       | _ => .error s!"af={it}"
 
+/-- `tal<i>=<hex cand>:<amount>:<inOld 0|1>,…` (`-` = empty), rows in the order the harness read them. -/
+def getTally (kv : KV) (k : String) : Except String (List TallyRow) :=
+  match kv.get k with
+  | none | some "-" => .ok []
+  | some v =>
+    (v.splitOn ",").mapM fun it =>
+      match it.splitOn ":" with
+      | [c, a, o] =>
+        match bytesOf c, a.toInt?, o with
+        | some cand, some amt, "1" => .ok { cand, amt, inOld := true }
+        | some cand, some amt, "0" => .ok { cand, amt, inOld := false }
+        | _, _, _ => .error s!"{k}={it}"
+      | _ => .error s!"{k}={it}"
+
+def getFd (kv : KV) : Except String FdReply :=
+  match kv.get "fd" with
+  | none | some "ok" => .ok .ok
+  | some "refused" => .ok .refused
+  | some "timeout" => .ok .timeout
+  | some "untyped" => .ok .untyped
+  | some v => .error s!"fd={v}"
+
 def envOf (kv : KV) : Except String Env := do
   let tx : Tx := {
     nilBody := ← getBool kv "nil" false
@@ -126,7 +148,8 @@ def envOf (kv : KV) : Except String Env := do
     gasPrice := ← getNat kv "price" 0
     type := ← getInt kv "type" 1
     payload := ← getBytes kv "pay"
-    nonce := ← getNat kv "txn" 1 }
+    nonce := ← getNat kv "txn" 1
+    gasLimit := ← getNat kv "gl" 0 }
   pure {
     tx
     isPublic := ← getBool kv "pub" false
@@ -140,12 +163,12 @@ def envOf (kv : KV) : Except String Env := do
     staked := ← getNat kv "stk" 0
     stakeRec := ← getBool kv "srec" false
     stakedWhen := ← getNat kv "when" 0
-    stakingMin := ← getNat kv "smin" 0
+    stakingMin := ← getInt kv "smin" 0
     voteRec := ← getBits kv "vrec" []
     oldVoteOk := ← getBits kv "oldok" []
     voteAmt := ← getNats kv "vamt"
     candCap := ← getNat kv "cap" 0
-    namePrice := ← getNat kv "nprice" 0
+    namePrice := ← getInt kv "nprice" 0
     nameOwned := ← getBool kv "nown" false
     acctEqName := ← getBool kv "aeq" false
     acctIsOwner := ← getBool kv "aown" false
@@ -159,13 +182,23 @@ def envOf (kv : KV) : Except String Env := do
     ccPeerOk := ← getBool kv "ccp" false
     ccAddrOk := ← getBool kv "cca" false
     ccIdOk := ← getBool kv "cci" false
-    argF := ← getArgF kv }
+    argF := ← getArgF kv
+    zeroFee := ← getBool kv "zf" true
+    gasPrice := ← getInt kv "gp" 50000000000
+    rcptResolved := ← getBool kv "rres" false
+    rcptBalance := ← getNat kv "rbal" 0
+    blockMulticall := ← getBool kv "bm" false
+    blockDeploy := ← getBool kv "bd" false
+    fdReply := ← getFd kv
+    tally := [[], ← getTally kv "tal1", ← getTally kv "tal2", ← getTally kv "tal3", ← getTally kv "tal4"]
+    stakingTotal := ← getNat kv "stot" 0 }
 
 def rejName : Rej → String
   | .format => "format" | .chain => "chain" | .size => "size" | .hash => "hash" | .amount => "amount"
   | .price => "price" | .account => "account" | .recipient => "recipient" | .type_ => "type"
   | .payload => "payload" | .args => "args" | .public_ => "public" | .sig => "sig" | .nonce => "nonce"
   | .balance => "balance" | .state => "state" | .unsupported => "unsupported"
+  | .fee => "fee" | .fd => "fd" | .internal => "internal"
 
 def siteName (s : Site) : String := (reprStr s).replace "Aergo.Admit.Site." ""
 
